@@ -24,3 +24,15 @@ def stringOfCodePoints (l : List Nat) : String := String.ofList (l.map Char.ofNa
 def verdictOf (b : Bool) : String := if b then "holds" else "fails"
 
 end RpmVerif.Driver
+
+namespace RpmVerif.Driver
+/-- FNV-1a 64 (same function as harness/src/common.rs `fnv`) -/
+def fnv (bs : Bytes) : UInt64 :=
+  bs.foldl (fun h b => (h ^^^ b.toUInt64) * 0x100000001b3) 0xcbf29ce484222325
+
+def hex16 (x : UInt64) : String :=
+  let s := String.ofList (Nat.toDigits 16 x.toNat)
+  String.ofList (List.replicate (16 - s.length) '0') ++ s
+
+def boolStr (b : Bool) : String := if b then "true" else "false"
+end RpmVerif.Driver
